@@ -20,6 +20,7 @@ import (
 	"net/http/httptest"
 	"reflect"
 	"sync"
+	"sync/atomic"
 	"testing"
 	"time"
 
@@ -32,6 +33,7 @@ type c01Endpoint struct {
 	srv     *httptest.Server
 	clients map[string]*SigClient // by transport
 	closers []func()
+	traced  atomic.Int64 // calls seen by the server's tracer (two of the five endpoints have one)
 }
 
 type c01Env struct {
@@ -75,7 +77,19 @@ func newC01Env() (*c01Env, error) {
 	for _, fn := range c01Formatters {
 		f := c12Formatter(fn)
 		ep := &c01Endpoint{api: &SigAPI{}, clients: map[string]*SigClient{}}
-		rpc := jsonrpc.NewServer(jsonrpc.WithServerMethodNameFormatter(f), jsonrpc.WithParamDecoder(new(Opaque), opaqueDecoder))
+		sopts := []jsonrpc.ServerOption{jsonrpc.WithServerMethodNameFormatter(f), jsonrpc.WithParamDecoder(new(Opaque), opaqueDecoder)}
+		if fn == "ns+lower" || fn == "custom_sep" {
+			// a tracer that looks at everything it is handed: the outcome of a call must not depend on being traced
+			sopts = append(sopts, jsonrpc.WithTracer(func(method string, params []reflect.Value, results []reflect.Value, err error) {
+				for _, v := range append(append([]reflect.Value{}, params...), results...) {
+					if v.IsValid() && v.CanInterface() {
+						_ = fmt.Sprintf("%v", v.Interface())
+					}
+				}
+				ep.traced.Add(1)
+			}))
+		}
+		rpc := jsonrpc.NewServer(sopts...)
 		rpc.Register("Sig", ep.api)
 		ep.srv = httptest.NewServer(rpc)
 		opts := []jsonrpc.Option{jsonrpc.WithMethodNameFormatter(f), jsonrpc.WithParamEncoder(new(Opaque), opaqueEncoder)}
@@ -328,6 +342,9 @@ func c01NT(c c01Case, edge []string) (bool, []string) {
 	cl := append([]string{"fmt_" + c.Formatter, fmt.Sprintf("nparams_%d", len(m.Params)), "res_" + m.Res}, edge...)
 	if m.Ctx {
 		cl = append(cl, "with_ctx")
+	}
+	if c.Formatter == "ns+lower" || c.Formatter == "custom_sep" {
+		cl = append(cl, "traced_server")
 	}
 	if m.Raw {
 		cl = append(cl, "raw_params_method")
